@@ -27,6 +27,7 @@ pub fn def() -> PropDef {
 }
 
 fn gen(rng: &mut Rng, tier: Tier) -> Value {
+  crate::gen::HUGE_TEXTS.store(true, std::sync::atomic::Ordering::Relaxed);
   let depth = match tier {
     Tier::Quick => rng.range(1, 3),
     Tier::Thorough => rng.range(1, 5),
